@@ -1024,6 +1024,44 @@ def G16_parallel_order(repo, clause, scope=ALL_LIB):
     return obs
 
 
+def G17_orientation_assumptions(repo, clause, scope=ALL_LIB):
+    """(a) `det(cell) > 0` used as a validity / periodicity test: a cell whose lattice vectors are listed left-handed has a NEGATIVE determinant and is a perfectly
+        good cell - the test must be `!= 0` (or on the absolute value);
+    (b) the list of the 27 neighbour offsets (`uc_neighbor_offsets`) has the zero offset in the MIDDLE (index 13): `offsets[1:]` / `offsets[0]` on the direct
+        result assume it comes first."""
+    obs = []
+    fns = _scope_fns(repo, scope)
+    n = 0
+    for fn in fns:
+        for c in [x for x in fn.own_nodes() if isinstance(x, ast.Compare) and len(x.ops) == 1 and isinstance(x.ops[0], (ast.Gt, ast.GtE, ast.Lt, ast.LtE))]:
+            sides = [c.left, c.comparators[0]]
+            dets = [e for e in sides if isinstance(e, ast.Call) and call_name(e) == "det"]
+            zero = [e for e in sides if const_value(e) == 0 and const_value(e) is not False]
+            if len(dets) == 1 and len(zero) == 1:
+                n += 1
+                obs.append(Ob("G17", clause, fn, c, False,
+                              "`%s` in %s tests the SIGN of the cell determinant: a left-handed list of lattice vectors (a and b exchanged) has a negative determinant and would be treated "
+                              "as %s; a volume test is `!= 0` or uses abs()" % (ast.unparse(c), fn.qualname, "not periodic / invalid"), slot="det-sign:%s" % fn.qualname, positive="robust"))
+        # (b)
+        for a in [x for x in fn.own_nodes() if isinstance(x, ast.Assign) and len(x.targets) == 1 and isinstance(x.targets[0], ast.Name)
+                  and any(isinstance(y, ast.Call) and call_name(y) == "uc_neighbor_offsets" for y in ast.walk(x.value))]:
+            nm = a.targets[0].id
+            # the swap that moves the zero offset to the front makes constant indexing legitimate
+            swapped = any(isinstance(d, ast.Assign) and isinstance(d.targets[0], ast.Subscript) and isinstance(d.targets[0].value, ast.Name) and d.targets[0].value.id == nm for d in fn.own_nodes())
+            if swapped:
+                continue
+            for sub in [y for y in fn.own_nodes() if isinstance(y, ast.Subscript) and isinstance(y.value, ast.Name) and y.value.id == nm and isinstance(y.ctx, ast.Load)]:
+                sl = sub.slice
+                positional = (isinstance(sl, ast.Slice) and any(const_value(v) not in (None,) for v in (sl.lower, sl.upper) if v is not None)) or isinstance(const_value(sl), int)
+                if positional:
+                    n += 1
+                    obs.append(Ob("G17", clause, fn, sub, False,
+                                  "`%s` in %s picks neighbour offsets by POSITION: uc_neighbor_offsets lists the 27 images with the zero offset in the middle (index 13), not first - "
+                                  "`[1:]` drops the (-1,-1,-1) image and keeps the central cell" % (ast.unparse(sub), fn.qualname), slot="offset-position:%s" % fn.qualname, positive="robust"))
+    obs.append(Ob("G17", clause, fns[0], fns[0].node, True, "%d functions in scope, %d orientation / ordering assumptions flagged" % (len(fns), n), construct="orientation inventory", slot="inventory"))
+    return obs
+
+
 def G10_defined_before_use(repo, clause, scope=ALL_LIB):
     """A local name is read only where at least one of its assignments can reach (reaching definitions over the statement CFG).  A read that NO
     assignment reaches - typically after two statements were exchanged or a line was moved above the one that defines its input - raises
